@@ -2,7 +2,7 @@
 import json, os, subprocess
 from lib import fw
 
-MODULES = ["SunriseVerif.Props.C17"]
+MODULES = ["SunriseVerif.Props.C17", "SunriseVerif.Props.C17Rate"]
 
 
 def features(f):
